@@ -194,19 +194,21 @@ theorem pushTop_disjoint (W f : List (Nat × Nat))
 
 theorem mem_dedupToRemove {top : List (Nat × Nat)} {tracker : Tracker} {decls : List (Nat × Nat)}
     {ns : Nat} : ns ∈ dedupToRemove top tracker decls ↔
-      (∃ p, (p, ns) ∈ decls) ∧ knownIn top ns = true ∧ trackerIsSafeToRemove ns tracker = true := by
+      (∃ p, (p, ns) ∈ decls) ∧ ns ≠ Env.noNamespace ∧ knownIn top ns = true ∧
+        trackerIsSafeToRemove ns tracker = true := by
   simp only [dedupToRemove, List.mem_filterMap, FStack.isNamespaceKnown, FStack.top,
     List.headD_cons, knownIn]
   constructor
   · rintro ⟨⟨p, n⟩, hm, h⟩
-    by_cases hc : ((top.any fun x => x.snd == n) && trackerIsSafeToRemove n tracker) = true
+    by_cases hc : (n != Env.noNamespace && (top.any fun x => x.snd == n) &&
+        trackerIsSafeToRemove n tracker) = true
     · simp only [hc, ↓reduceIte, Option.some.injEq] at h
       subst h
-      simp only [Bool.and_eq_true] at hc
-      exact ⟨⟨p, hm⟩, hc.1, hc.2⟩
+      simp only [Bool.and_eq_true, bne_iff_ne, ne_eq] at hc
+      exact ⟨⟨p, hm⟩, hc.1.1, hc.1.2, hc.2⟩
     · simp [hc] at h
-  · rintro ⟨⟨p, hm⟩, h1, h2⟩
-    exact ⟨(p, ns), hm, by simp [h1, h2]⟩
+  · rintro ⟨⟨p, hm⟩, h0, h1, h2⟩
+    exact ⟨(p, ns), hm, by simp [h0, h1, h2]⟩
 
 /-- What the rebuilt element keeps: its declarations are a sublist of the original ones, every
     declaration whose namespace is not in `toRemove` survives, attributes and the
